@@ -1034,7 +1034,7 @@ func c03R21(p *core.Program, r *core.Report) {
 // denotes may be unexported or internal: `DeepCopyAs() *origin.settings` does not compile).
 func c18R19(p *core.Program, r *core.Report) {
 	const rule = "R19"
-	r.Floor(rule, 2)
+	r.Floor(rule, 1)
 	n := 0
 	for _, f := range p.Funcs() {
 		if core.RelPkg(f.Pkg.PkgPath) != "devpkg/partialstruct" || f.Body == nil || f.Lit != nil {
@@ -1072,8 +1072,29 @@ func c18R19(p *core.Program, r *core.Report) {
 					return true
 				})
 				if v, isVar := obj.(*types.Var); isVar && !good {
-					if d, single := core.SingleDef(info, f.Body, v); single && d.Rhs != nil && fromObjectOf(d.Rhs) {
-						good = true
+					if d, single := core.SingleDef(info, f.Body, v); single && d.Rhs != nil {
+						if fromObjectOf(d.Rhs) {
+							good = true
+						} else {
+							// narrowed from a variable every value of which is such a lookup
+							src := ast.Unparen(d.Rhs)
+							if ta, isTA := src.(*ast.TypeAssertExpr); isTA {
+								src = ast.Unparen(ta.X)
+							}
+							if sv := core.VarOf(info, src); sv != nil && !sv.IsField() {
+								defs := core.DefsOf(info, f.Body, sv)
+								all := len(defs) > 0
+								for _, sd := range defs {
+									if sd.Rhs == nil {
+										continue // `var origin types.Object`
+									}
+									if !fromObjectOf(sd.Rhs) {
+										all = false
+									}
+								}
+								good = all
+							}
+						}
 					}
 				}
 			} else if fromObjectOf(val) {
